@@ -22,6 +22,10 @@ def field_world(bld, n, N, spacing, buckets, cutoff=0):
     calib = {}
     for ln in open(prefix + '.calib'):
         w = ln.split(); calib[w[0]] = int(w[1])
+    # c2r plans that use their input as scratch space (FFTW does for most even lengths >= 18): the complex cells the native execution changed - the model clobbers exactly those
+    if not calib.get('c2r_input_preserved', 1) and not calib.get('c2r_inplace') and calib.get('c2r_changed_lo', -1) >= 0:
+        for p_ in plans.values():
+            if p_['kind'] == 1: p_['clobber'] = (calib['c2r_changed_lo'], calib['c2r_changed_hi'])
     return snap, roots, prefix, plans, calib
 
 # ------------------------------------------------------------------ FFT models
@@ -62,6 +66,10 @@ class UFFFT:
         nin = N if kind == 0 else 2 * (N // 2 + 1)
         iv = [ex.dom.z(ex.load(st, p['in'] + 4 * i, F32)) for i in range(nin)]
         for k, t in enumerate(self.apply(kind, N, iv)): ex.store(st, p['out'] + 4 * k, F32, t)
+        if kind == 1 and p.get('clobber'):
+            lo, hi = p['clobber']
+            for c in range(2 * lo, 2 * hi + 2):          # scratch: an unknown function of the whole input, one per cell
+                ex.store(st, p['in'] + 4 * c, F32, self.F(2, N, c, len(iv))(*iv))
         self.calls.append(kind)
         return None
 
